@@ -96,6 +96,8 @@ def gen_traffic(seed, idx):
                 e = [["find", 0x1111, 0xFFFF, 0xFF, 0xFFFFFFFF, 3]]
             else:
                 e = [["sub", 0x1111, 1, 1, 1, 3, 0, [["ep", 4, f"10.0.0.{11 + p}", 17, 4000]]]]
+            if r.random() < 0.0005:
+                ops.append({"k": "preboot", "t": round(t, 6), "p": p})  # the peer restarts: our own counters towards it must not care
             ops.append({"k": "sd", "t": round(t, 6), "p": p, "ch": "u", "e": e})
             t += period
             n += 1
@@ -104,7 +106,8 @@ def gen_traffic(seed, idx):
     return {"engine": "single", "property": ID, "class": "traffic", "seed": seed, "cfg": cfg, "ops": ops, "until": dur}
 
 
-NSVC = {"svc": 0x4321, "inst": 1, "major": 1, "minor": 0, "methods": {}, "eventgroups": [{"id": 1, "interval": 0.001, "values": {"1": "aa", "2": "bb"}}]}
+NSVC = {"svc": 0x4321, "inst": 1, "major": 1, "minor": 0, "methods": {},
+        "eventgroups": [{"id": 1, "interval": 0.001, "values": {"1": "aa", "2": "bb"}}, {"id": 2, "interval": 0.007, "values": {"16": "cc"}}]}
 
 
 def gen_notify(seed, idx):
@@ -122,6 +125,9 @@ def gen_notify(seed, idx):
     for p in range(r.randint(2, 3)):
         t = round(0.01 + p * r.uniform(0.0, 3.0), 6)
         ops.append({"k": "sd", "t": t, "p": p, "ch": "u", "e": [["sub", 0x4321, 1, 1, 1, 0xFFFFFF, 0, [["ep", 4, f"10.0.0.{11 + p}", 17, 4000]]]]})
+        if p == 0 or r.random() < 0.5:
+            # the same endpoint also subscribes to the second eventgroup: one destination, one counter
+            ops.append({"k": "sd", "t": round(t + r.uniform(0.0, 1.0), 6), "p": p, "ch": "u", "e": [["sub", 0x4321, 1, 1, 2, 0xFFFFFF, 0, [["ep", 4, f"10.0.0.{11 + p}", 17, 4000]]]]})
     for j in range(r.randint(0, 20)):
         ops.append({"k": "call", "t": round(r.uniform(0.1, dur), 6), "f": "notify_once", "a": [1, r.choice([[1], [2], [1, 2]])]})
     return {"engine": "svc", "property": ID, "class": "notify", "seed": seed, "cfg": cfg, "ops": ops, "until": dur}
